@@ -141,14 +141,33 @@ def run_unit(module_name, unit_name, timeout_ms=10000, use_cvc5=False, max_paths
                 # obligations reached before the bound still count; nothing is claimed beyond it
             for r in p.notes.get("reach", []):
                 res.reached.add(r)
+            # one query per group of checks that share a path condition; split only when it does not close
+            groups = []
             for name, goal, pc in p.checks:
-                ob = Obligation(unit_name, name, pid)
-                r = lower.solve(pc, goal, timeout_ms, use_cvc5=use_cvc5)
-                ob.status, ob.backend, ob.seconds, ob.reason, ob.model = r.status, r.backend, r.seconds, r.reason, r.model
-                res.solver_seconds += r.seconds
-                if r.status != "proved":
-                    ob.goal_text = ir.show(goal)[:600]
-                res.obligations.append(ob)
+                if groups and len(groups[-1][0]) == len(pc):
+                    groups[-1][1].append((name, goal))
+                else:
+                    groups.append((pc, [(name, goal)]))
+            for pc, items in groups:
+                live = [(n, g) for n, g in items if not (g.op == "bconst" and ir.cval(g))]
+                batch_ok = False
+                if len(live) > 1:
+                    rb = lower.solve(pc, ir.conj(g for _, g in live), timeout_ms, use_cvc5=use_cvc5)
+                    res.solver_seconds += rb.seconds
+                    batch_ok = rb.status == "proved"
+                for name, goal in items:
+                    ob = Obligation(unit_name, name, pid)
+                    if goal.op == "bconst" and ir.cval(goal):
+                        ob.status, ob.backend = "proved", "structural"
+                    elif batch_ok:
+                        ob.status, ob.backend, ob.seconds = "proved", rb.backend, rb.seconds / len(live)
+                    else:
+                        r = lower.solve(pc, goal, timeout_ms, use_cvc5=use_cvc5)
+                        ob.status, ob.backend, ob.seconds, ob.reason, ob.model = r.status, r.backend, r.seconds, r.reason, r.model
+                        res.solver_seconds += r.seconds
+                        if r.status != "proved":
+                            ob.goal_text = ir.show(goal)[:600]
+                    res.obligations.append(ob)
             if kind == "exception":
                 # an exception escaping the harness violates the implicit noexc clause on this path
                 ob = Obligation(unit_name, "noexc", pid)
